@@ -596,12 +596,17 @@ impl WordShape {
         self
     }
 }
-// @item rust/core/src/tokenization/word.rs :: defaults Word as WordShape::{len}
+// @item rust/core/src/tokenization/word.rs :: defaults Word as WordShape::{len,is_empty}
 impl WordShape {
     fn len(&self) -> (ret: usize)
     {
         let (left, right) = self.slice();
         right - left
+    }
+    fn is_empty(&self) -> (ret: bool)
+    {
+        let (left, right) = self.slice();
+        right == left
     }
 }
 // @item rust/core/src/tokenization/word_split.rs :: struct WordSplit
